@@ -10,8 +10,7 @@
 
   Not a theorem (carried by the correspondence only): the equality of the four owned/borrowed
   operand forms (the model has a single answer, every form of the real operator must give it),
-  IEEE float arithmetic (compared across forms only), the IEEE bit encoding `floatBits`
-  (executed against both Rust and the Lean runtime), and the "any user type works everywhere"
+  IEEE float arithmetic (compared across forms only), and the "any user type works everywhere"
   clause (compile-time instantiation + agreement with the documented formula evaluated at
   `Fp`/`Rat`, see Driver.C19User).
 -/
@@ -216,6 +215,49 @@ theorem roundNE_exact (p n : Nat) (h : n < 2 ^ p) : roundVal (roundNE p n) = n :
 theorem roundNE_tie_even (p n : Nat) (hl : p < bitLen n)
     (htie : 2 * (n % 2 ^ (bitLen n - p)) = 2 ^ (bitLen n - p)) : (roundNE p n).1 % 2 = 0 :=
   roundNE_tie_even' p n hl htie
+
+/-! ### the IEEE-754 bit pattern denotes the rounded value
+
+`floatBits` is what the driver prints and the harness compares with `to_bits()`.  Decoding it the
+IEEE way (`floatDecode`: hidden leading one, biased exponent) gives back a significand/exponent
+pair that denotes exactly `roundVal (roundNE p n)`. -/
+
+/-- `(normSig, normExp)` denotes the same number as `(m, e)` -/
+theorem norm_same_value (p m e : Nat) (hp : 1 ≤ p) (hm0 : m ≠ 0) (hm : m ≤ 2 ^ p) :
+    (bitLen m ≤ p ∧ normSig p m = m * 2 ^ (p - bitLen m) ∧
+        normExp p m e = (e : Int) - ((p - bitLen m : Nat) : Int)) ∨
+    (bitLen m = p + 1 ∧ m = normSig p m * 2 ∧ normExp p m e = (e : Int) + 1) :=
+  norm_same_value' p m e hp hm0 hm
+
+/-- for every non-zero count (any `p ≥ 1`, `ebits ≥ 2`, in particular `f32` = (24, 8) and `f64` =
+    (53, 11)): the printed bit pattern decodes to the normalised form of the rounded value, with
+    exactly `p` significant bits, and its exponent field is `bias + ⌊log₂⌋` with
+    `bitLen n - 1 ≤ ⌊log₂⌋ ≤ bitLen n` — for `n < 2^64` far below the all-ones field of ∞/NaN -/
+theorem floatFromUsize_decodes (p ebits n : Nat) (hp : 1 ≤ p) (he : 2 ≤ ebits) (hn : n ≠ 0) :
+    let me := roundNE p n
+    floatDecode p ebits (floatBits p ebits me) = (normSig p me.1, normExp p me.1 me.2) ∧
+      2 ^ (p - 1) ≤ normSig p me.1 ∧ normSig p me.1 < 2 ^ p ∧
+      (bitLen n : Int) - 1 ≤ normExp p me.1 me.2 + ((p - 1 : Nat) : Int) ∧
+      normExp p me.1 me.2 + ((p - 1 : Nat) : Int) ≤ (bitLen n : Int) := by
+  intro me
+  obtain ⟨hm0, hm, hlo, hhi⟩ := roundNE_sig p n hp hn
+  have hr := normSig_range p me.1 hp hm0 hm
+  refine ⟨?_, hr.1, hr.2, hlo, hhi⟩
+  have hme : me = (me.1, me.2) := rfl
+  rw [hme]
+  apply floatBits_decode' p ebits me.1 me.2 hp hm0 hm
+  have hb : (1 : Int) ≤ bitLen n := by have := bitLen_pos hn; omega
+  have hbias : (1 : Int) ≤ 2 ^ (ebits - 1) - 1 := by
+    have h2 : 2 ^ 1 ≤ 2 ^ (ebits - 1) := Nat.pow_le_pow_right (by decide) (by omega)
+    have h3 : (2 : Int) ^ (ebits - 1) = ((2 ^ (ebits - 1) : Nat) : Int) := by simp
+    omega
+  have : normExp p me.1 me.2 = normExp p (roundNE p n).1 (roundNE p n).2 := rfl
+  omega
+
+-- f32: 2^24 + 3 rounds to (2^23 + 2) * 2^1; its pattern 0x4B800002 decodes to that pair
+example : f32FromUsize (2 ^ 24 + 3) = some 0x4B800002 := by decide
+example : floatDecode 24 8 0x4B800002 = (2 ^ 23 + 2, 1) := by decide
+example : f64FromUsize 1 = some 0x3FF0000000000000 := by decide
 
 -- 2^24 + 1 is a tie for f32 and goes down to the even 2^24; 2^24 + 3 goes up to 2^24 + 4
 example : roundNE 24 (2 ^ 24 + 1) = (2 ^ 23, 1) := by decide
